@@ -3,6 +3,7 @@
 // size of push_backs between two consume() calls (0..600): the consumer obtains the last value /
 // exactly the pushed elements, whatever the count.  Engine seqmc, plain enumeration.
 #include <functional>
+#include <stdexcept>
 #include "common/vreport.h"
 
 #include "rkcommon/containers/TransactionalBuffer.h"
@@ -79,6 +80,33 @@ static void buffer_burst(const char *ty, long n)
     printf("buffer burst %s n=%ld done\n", ty, n);
 }
 
+// a payload whose assignment from one particular source throws (a validating assignment) and leaves it unchanged:
+// op 'x' = "tv = Poison()" must change nothing - what was assigned before is still what update() delivers
+struct Poison
+{
+};
+struct Picky
+{
+  long v;
+  Picky(long v_ = 0) : v(v_) {}
+  Picky &operator=(const Poison &) { throw std::invalid_argument("rejected value"); }
+  bool operator==(const Picky &o) const { return v == o.v; }
+};
+template <>
+Picky mk<Picky>(long k) { return Picky(k); }
+template <typename T>
+static bool assign_poison(TransactionalValue<T> &) { return false; }
+template <>
+bool assign_poison<Picky>(TransactionalValue<Picky> &tv)
+{
+  try {
+    tv = Poison();
+  } catch (const std::invalid_argument &) {
+    return true;
+  }
+  return false;
+}
+
 // every history of <= D operations over {assign 0/1/2, update()} on one thread: values repeat, so "the last value" is told apart from "a value that differs"
 template <typename T>
 static void value_history(const char *ty, const std::string &h)
@@ -111,6 +139,16 @@ static void value_history(const char *ty, const std::string &h)
       if (pending)
         cur = last;
       pending = false;
+    } else if (op == 'x') {
+      if (!assign_poison(tv)) {
+        viol("TransactionalValue|an assignment whose payload assignment throws does not propagate the exception", rp, "history " + h + " step " + std::to_string(i));
+        return;
+      }
+      if (!(tv.get() == mk<T>(cur))) {
+        viol("TransactionalValue|get() changes before update()", rp, "history " + h + " step " + std::to_string(i));
+        return;
+      }
+      continue;  // nothing was assigned: pending / last stay as they were
     } else {
       last = op - '0';
       tv = mk<T>(last);
@@ -143,6 +181,25 @@ static void all_value_histories(int D)
     }
   };
   rec();
+  {
+    // the same with the rejecting assignment in the alphabet, one level less deep, for the validating payload
+    static const char OPSX[] = "012xu";
+    std::string hx;
+    std::function<void()> recx = [&]() {
+      if (!hx.empty() && hx.back() == 'u' && hx.find('x') != std::string::npos) {
+        value_history<Picky>("picky", hx);
+        n++;
+      }
+      if ((int)hx.size() == D - 1)
+        return;
+      for (const char *o = OPSX; *o; o++) {
+        hx.push_back(*o);
+        recx();
+        hx.pop_back();
+      }
+    };
+    recx();
+  }
   vr::sample("every history of <= " + std::to_string(D) + " operations over {=0, =1, =2, update()} ending in update(): " + std::to_string(n) +
       " histories x {int, string}, e.g. hist:int:10u (assign 1, assign 0 = the consumer's current value, update)");
 }
@@ -160,6 +217,8 @@ int main(int argc, char **argv)
     if (f[0] == "hist") {
       if (f[1] == "int")
         value_history<int>("int", f[2]);
+      else if (f[1] == "picky")
+        value_history<Picky>("picky", f[2]);
       else
         value_history<std::string>("str", f[2]);
     } else if (f[0] == "val") {
